@@ -229,6 +229,9 @@ class Builder:
             return self.params[r[1]].store(self.build(r[2]))
         if k == "varref":
             return self.var(r[1])
+        if k == "paramref":
+            # forward the routine's own by-reference parameter (a DynamicScratchVar) to another routine
+            return self.params[r[1]]
         raise BuildError("unknown recipe node %r" % (k,))
 
     def build_op(self, name, imms, ty, a):
@@ -342,6 +345,8 @@ class Builder:
             return "(op \"stores\" () n ((param %d) %s))" % (r[1], self.wire(r[2]))
         if k == "varref":
             return "(op \"int\" ((slot %d)) u ())" % self.slot_uid(r[1])
+        if k == "paramref":
+            return "(param %d)" % r[1]
         raise BuildError("wire: %r" % (k,))
 
     def wire_imm(self, i):
